@@ -451,3 +451,33 @@ def capture_restore(ctx):
         if fail_seen:
             _rec(d, "Repeat|failed-iteration-attempt-restores-groups", fail_ok, "a failed attempt at a further iteration in %s leaves the groups it moved (Capture sets the back-reference start before matching) in place, e.g. '^(a+)*b\\1$' does not match 'aabaa'" % path, b.loc())
     return _emit(d)
+
+
+@rule("STATE-SAVE-RESTORE", ["C03", "C19", "C01"], floor=3)
+def state_save_restore(ctx):
+    """ReMatcher::capture_state() hands out a copy of the *whole* capture state (every group's start and end, and
+    the group count), and ReMatcher::reset_state(s) replaces the whole capture state by s.  A restore that copies
+    back only part of the saved state (the groups below the saved count, say) leaves spans written by the abandoned
+    attempt in place: they resurface when a later group raises the count again - a group that took no part in the
+    match is reported, with text from the abandoned attempt."""
+    d = {}
+    S = "re_matcher::ReMatcher::capture_state"
+    R = "re_matcher::ReMatcher::reset_state"
+    sb, rb = ctx.body(S), ctx.body(R)
+    if sb is None or rb is None:
+        return [missing(S if sb is None else R)]
+    for p in checked(d, "save", sb, ctx.walk(sb).paths, only=lambda p: p.end == "return"):
+        r = strip_ver(render(p.ret))
+        _rec(d, "save|whole-state-copied", r in ("RefCell::borrow(a1.state).capture_state", "clone(RefCell::borrow(a1.state).capture_state)"), "capture_state() must hand out a copy of the whole capture state; found %s" % r[:120], sb.loc(p.blocks[-1]))
+    for p in checked(d, "restore", rb, ctx.walk(rb).paths, only=lambda p: p.end == "return"):
+        stores = [(strip_ver(render(e[1])), strip_ver(render(e[2]))) for e in p.effects if e[0] == "store"]
+        good = stores in ([("RefCell::borrow_mut(a1.state).capture_state", "a2")], [("RefCell::borrow_mut(a1.state).capture_state", "clone(a2)")], [("RefCell::borrow_mut(a1.state).capture_state", "*a2")])
+        calls = [e for e in p.effects if e[0] == "call" and not any(x in str(e[1]) for x in ("borrow_mut", "deref_mut", "deref", "clone", "drop"))]
+        _rec(d, "restore|whole-state-replaced", good and not calls, "reset_state(s) must replace the whole capture state by s (one store to state.capture_state); found stores %s, calls %s" % (stores[:3], [e[1] for e in calls][:3]), rb.loc(p.blocks[-1]))
+    # the copy is a field-by-field copy: Clone for CaptureState is derived
+    cb = next((b for b in ctx.f.bodies if b.path.startswith("<re_matcher::CaptureState as std::clone::Clone>::clone")), None)
+    if cb is None:
+        d["clone|derived"] = [False, "<CaptureState as Clone>::clone not found", None]
+    else:
+        _rec(d, "clone|derived", bool(cb.from_expansion), "Clone for CaptureState is written by hand: a copy that leaves out a field is no longer a saved state", cb.loc())
+    return _emit(d)
